@@ -92,7 +92,15 @@ def run (ctx):
     ctx.ob('R-DOM', h, "a flow is installed / the frame forwarded only to a port other than the ingress port", good, "dominated by port != event.port" if good else
            "the install+forward send is not guarded by `port != event.port` (facts %s): a frame can be sent back out its ingress port" % fs, (mod, n.ast), 'D2')
     good = any('in self.macToPort' in f and 'not in' not in f for f in fs)
-    ctx.ob('R-DOM', h, "forwarding only to a learned address", good, "dominated by dst in macToPort", (mod, n.ast), 'D2')
+    if not good:
+      # or: the port was fetched with .get() and tested against None
+      gets = [(t, v) for t, v, st_, k in q.stores_in(h.node, nested=False) if isinstance(t, ast.Name) and isinstance(v, ast.Call) and call_name(v) == 'get'
+              and isinstance(v.func, ast.Attribute) and norm(v.func.value) == 'self.macToPort' and len(v.args) == 1]
+      for t, v in gets:
+        if len(q.reaching_assign(h.node, t.id)) == 1 and ('%s is not None' % t.id) in fs: good = True
+      if not good and gets: good = None
+    ctx.ob('R-DOM', h, "forwarding only to a learned address", good, "dominated by dst in macToPort (or by a .get() result that is not None)" if good else
+           "the install+forward send is not guarded by a test that the destination was learned (facts %s)" % fs, (mod, n.ast), 'D2')
   floods = g.nodes_with_call(lambda c: isinstance(c.func, ast.Name) and c.func.id == 'flood')
   drops = g.nodes_with_call(lambda c: isinstance(c.func, ast.Name) and c.func.id == 'drop')
   lldp = lambda e: isinstance(e, ast.Compare) and 'LLDP_TYPE' in norm(e)
@@ -125,8 +133,13 @@ def run (ctx):
              "%s is classified as %sbridge-filtered: %s" % (wrong[0][0], "not " if wrong[0][1] else "", "such link-local frames are flooded / get flows installed by the learning switch" if wrong[0][1] else "ordinary traffic to it is dropped"), ibf, 'D2')
   r = q.reach_under(repo, mod, g, q.Env({'self.transparent': False, 'packet.dst.is_multicast': True}, [(lldp, False), (bf, False)]), ls)
   ctx.ob('R-DOM', h, "multicast / broadcast destinations are flooded", any(n in r for n in floods) and not any(n in r for n in inst), "flood reachable, install unreachable", h, 'D2')
-  r = q.reach_under(repo, mod, g, q.Env({'self.transparent': False, 'packet.dst.is_multicast': False, 'packet.dst not in self.macToPort': True, 'packet.dst in self.macToPort': False}, [(lldp, False), (bf, False)]), ls)
-  ctx.ob('R-DOM', h, "unknown unicast destinations are flooded", any(n in r for n in floods) and not any(n in r for n in inst), "flood reachable, install unreachable", h, 'D2')
+  # by value: the address table is a real (empty) dict, so `dst not in table`, `table.get(dst) is None` and the like all decide
+  r = q.reach_under_cp(repo, mod, g, q.Env({'self.transparent': False, 'packet.dst.is_multicast': False, 'packet.dst not in self.macToPort': True, 'packet.dst in self.macToPort': False,
+                                            'packet.src': 'S', 'packet.dst': 'D', ev + '.port': 1, 'self.macToPort': {}}, [(lldp, False), (bf, False)]), ls,
+                        start=learn[0] if len(learn) == 1 and g.dominates(learn[0], g.exit) else None)
+  fl_ok = any(n in r for n in floods); in_no = not any(n in r for n in inst)
+  ctx.ob('R-DOM', h, "unknown unicast destinations are flooded", (fl_ok and in_no) if (fl_ok or not in_no) else None, "flood reachable, install unreachable" if fl_ok and in_no else
+         "with an empty address table: flood reachable %s, install reachable %s" % (fl_ok, not in_no), h, 'D2')
   # ---- D3 message fields ------------------------------------------------------------------------
   fl = nested.get('flood')
   if fl is not None:
@@ -149,7 +162,21 @@ def run (ctx):
     outs = [c for c in calls_in(h.node) if call_name(c) == 'ofp_action_output']
     pd = q.single_def(h.node, 'port')
     good = len(outs) == 1 and norm(kwarg(outs[0], 'port', 0)) == 'port' and pd is not None and norm(pd) == 'self.macToPort[packet.dst]'
-    ctx.ob('R-AGREE', h, "the installed flow outputs to the port learned for the destination", good, "port = %s; %s" % (norm(pd), norm(outs[0]) if outs else '?'), h, 'D3')
+    why = "port = %s; %s" % (norm(pd), norm(outs[0]) if outs else '?')
+    if not good and len(outs) == 1 and len(learn) == 1:
+      # by value: destination D learned on port 7, frame from S arrives on port 1
+      got = []
+      def on_node (n_, env_):
+        for c_ in q.node_calls(n_):
+          if c_ is outs[0]:
+            try: got.append(q.eval_env2(repo, mod, kwarg(c_, 'port', 0), env_, ls))
+            except Exception: got.append('?')
+      q.paths_under(repo, mod, g, q.Env({'self.transparent': False, 'packet.dst.is_multicast': False, 'packet.src': 'S', 'packet.dst': 'D', ev + '.port': 1, 'self.macToPort': {'D': 7}},
+                                        [(lldp, False), (bf, False)]), learn[0], inst, ls, on_node=on_node)
+      if got and all(x == 7 for x in got): good = True; why = "with D learned on port 7 the output action names port 7"
+      elif not got or '?' in got or any(x is q.OPAQUE for x in got): good = None; why = "output port not evaluable (%s)" % why
+      else: why = "with D learned on port 7 the output action names port %r" % (got[0],)
+    ctx.ob('R-AGREE', h, "the installed flow outputs to the port learned for the destination", good, why, h, 'D3')
     for tname in ('idle_timeout', 'hard_timeout'):
       v = sts.get(tname); k = q.try_int(v) if v is not None else None
       if k is None and v is not None:
@@ -252,7 +279,22 @@ def run (ctx):
     good = ('self.buffer_id', dv + '.buffer_id') in [(a, b) for a, b, c in sts] and ('self.in_port', dv + '.in_port') in [(a, b) for a, b, c in sts]
     ctx.ob('R-AGREE', pout.qual + '.data', "packet_out.data = <packet-in> takes over buffer id and ingress port", good, "buffer_id, in_port copied" if good else "setter stores %s" % [(a, b) for a, b, c in sts], (pout.module, d), 'D4')
     raw = [c for a, b, c in sts if a == 'self._data' and b == dv + '._data']
-    if raw:
+    # by value: the setter run on a buffered and on an unbuffered packet-in
+    decided = {}
+    for bid in (5, None):
+      ex = {'isinstance(%s, bytes)' % dv: False, 'isinstance(%s, ofp_packet_in)' % dv: True, 'isinstance(%s, packet_base)' % dv: False, '%s is None' % dv: False, '%s is not None' % dv: True,
+            dv + '.buffer_id': bid, dv + '._data': b'FRAME', dv + '.data': b'FRAME', dv + '.is_complete': True, dv + '.in_port': 3, 'self._data': b'old', 'self.buffer_id': 99}
+      ends = q.paths_under(repo, pout.module, gg, q.Env(ex), gg.entry, [gg.exit], pout, limit=40)
+      vals = set()
+      for p_, e_ in ends:
+        v_ = e_.exact.get('self._data', '?')
+        vals.add(v_ if isinstance(v_, bytes) else '?')
+      decided[bid] = vals
+    if decided[5] and decided[None] and '?' not in decided[5] and '?' not in decided[None]:
+      good = decided[5] == {b''} and decided[None] == {b'FRAME'}
+      ctx.ob('R-DOM', pout.qual + '.data', "raw bytes are copied only when the packet-in is unbuffered", good, "setter evaluated on a buffered and an unbuffered packet-in" if good else
+             "packet_out.data = <packet-in>: a buffered packet-in leaves data %r (want b''), an unbuffered one %r (want its frame): the switch would emit the wrong bytes" % (sorted(decided[5]), sorted(decided[None])), (pout.module, d), 'D4')
+    elif raw:
       fs = q.fact_strs(gg, q.enclosing_stmt_node(gg, raw[0]))
       good = 'self.buffer_id is None' in fs or (dv + '.buffer_id is None') in fs
       ctx.ob('R-DOM', pout.qual + '.data', "raw bytes are copied only when the packet-in is unbuffered", good, "under buffer_id is None" if good else "the packet-in's bytes are copied although it is buffered (facts %s): the switch would emit the data instead of the buffered packet" % fs, (pout.module, d), 'D4')
